@@ -53,6 +53,27 @@ theorem C13_clone_owns_itself (h : Heap) (s : Id) (tr dbg : Bool) (h' : Heap) (c
     obtain ⟨po, b1, b2, b3, b4, b5⟩ := holders hab
     exact ⟨po, b1, b2, b3, fun _ => b4, b5⟩
 
+/-- Whatever the route — `get_population(plural)`, `populations[key]`, the `simulation.<key>` shortcut,
+`simulation.persons` — asked of the clone, the population that comes back is a new object bound to the clone
+(the routes are look-ups in the simulation object itself; nothing else remembers an answer). -/
+theorem C13_clone_routes_return_own_populations (h : Heap) (s : Id) (tr dbg : Bool) (h' : Heap) (c : Id)
+    (hcl : Closed s.reg h) (hc : cloneSim s tr dbg h = (.ok c, h')) (rt : Route) (ent : Nat) (pid : Id)
+    (hr : (routePop c rt ent h').1 = .ok pid) :
+    ∃ po, h'.get? pid = some (.pop po) ∧ po.sim = c ∧ pid.reg = c.reg ∧ c.reg = h.length
+      ∧ (routeOwn c rt ent h').1 = .ok true := by
+  obtain ⟨so, hso, _, _, hreg, _, _, hlist, hall⟩ := C13_clone_owns_itself h s tr dbg h' c hcl hc
+  rw [routePop_eq hso] at hr
+  obtain ⟨k, hk⟩ := routeAnswer_mem hr hlist
+  obtain ⟨po, hpo, hpr, hps, _⟩ := hall (k, pid) hk
+  refine ⟨po, hpo, hps, hpr, hreg, ?_⟩
+  unfold routeOwn
+  rw [bind_apply, routePop_eq hso]
+  simp only at hr
+  rw [hr]
+  simp only
+  rw [bind_of_ok (rdPop_eq hpo)]
+  simp [pure_apply, hps]
+
 example : ∃ c h', cloneSim exS false false exH = (.ok c, h') ∧ Closed exS.reg exH ∧ h' = exH' ∧ c = exC :=
   ⟨exC, exH', by decide +kernel, by decide +kernel, rfl, rfl⟩
 
